@@ -19,7 +19,7 @@ FILE = "src/zorg/app/runners/_run_action.py"
 PROTOCOL = ("EDIT ", "SEARCH ", "PROMPT ", "ECHO ")
 
 
-def _open_run(model: PyModel, page: str, lines: list, line_number: int, option):
+def _open_run(model: PyModel, page: str, lines: list, line_number: int, option, zdir: str = "/Z"):
     """One abstract run of run_action_open over a virtual notes directory /Z (page -> lines); the index answers for a fixed set of IDs / RIDs / ZIDs.
     -> [(status, [what the editor plugin receives: printed lines and external actions, in order], imprecise notes, raised?)]"""
     import datetime as _dt
@@ -28,7 +28,8 @@ def _open_run(model: PyModel, page: str, lines: list, line_number: int, option):
     from ..absval import HObj, Opaque, Ref
     from ..virtual import World, vpath
 
-    W = World(model, files={}, old_map=None, indexed=set(), errors=set(), whitelist=[], contents={f"/Z/{page}": "\n".join(lines), "/Z/q.zo": "", "/Z/r.zo": "", "/Z/doc.pdf": ""}, missing="all-but-contents")
+    W = World(model, files={}, old_map=None, indexed=set(), errors=set(), whitelist=[], zdir=zdir,
+              contents={f"{zdir}/{page}": "\n".join(lines), f"{zdir}/q.zo": "", f"{zdir}/r.zo": "", f"{zdir}/doc.pdf": ""}, missing="all-but-contents")
     probes = W.probes()
     base_m, base_g, base_c = probes["method:*"], probes["getattr:*"], probes["call:*"]
     st = State()
@@ -102,7 +103,7 @@ def _open_run(model: PyModel, page: str, lines: list, line_number: int, option):
                    "zorg.service.swog._refresh_zoq_file.refresh_zoq_file": refresh,
                    model.resolve_dotted(mi.imports.get("init_from_template", "")) or "zorg.service.templates.init_from_template": init_tmpl})
     I = Interp(model, probes=probes, max_states=3000)
-    cfg = st.alloc(HObj("obj", cls="zorg.app.config.OpenActionConfig", fields=dict(zettel_dir=vpath("/Z"), zo_path=vpath(page), line_number=line_number, option_idx=option, database_url="db", verbose=0,
+    cfg = st.alloc(HObj("obj", cls="zorg.app.config.OpenActionConfig", fields=dict(zettel_dir=vpath(zdir), zo_path=vpath(page), line_number=line_number, option_idx=option, database_url="db", verbose=0,
                                                                                   template_pattern_map=st.alloc(HObj("dict")), binary_exts=st.alloc(HObj("list", items=["pdf", "png"])))))
     res = I.run_function(F_OPEN, [cfg], st=st)
     return [(v, [t[1] for t in s.trace if t[0] == "out"], list(s.imprecise), isinstance(v, Raised)) for v, s in res]
@@ -117,10 +118,10 @@ def open_scenarios(run: Run, model: PyModel) -> None:
     fo = model.func(F_OPEN)
     n = 0
 
-    def go(label, page, lines, ln, opt):
+    def go(label, page, lines, ln, opt, zdir="/Z"):
         nonlocal n
         try:
-            res = _open_run(model, page, lines, ln, opt)
+            res = _open_run(model, page, lines, ln, opt, zdir)
         except Exception as e:  # noqa: BLE001
             run.undecided("C17.R3", "run_action_open", f"{label}: cannot interpret: {type(e).__name__}: {str(e)[:100]}")
             return None
@@ -203,7 +204,77 @@ def open_scenarios(run: Run, model: PyModel) -> None:
             exp = f"{wouts} (status {wv})"
         rid = "C17.R4" if "owned by" in label else "C17.R3"
         run.check(rid, f"{label}: {exp}", ok, "run_action_open", f"{label}: {outs} status {v!r}", f"{label} (`{line}`): the answer is {outs} with status {v!r}, expected {exp}", file=FILE, node=fo.node)
-    run.floor("action-open scenarios", n, 34)
+    # a notes directory whose own path contains a dot: page names without extension still get `.zo`
+    for label, line, wouts in (("a page link, notes directory `/N.d/org`", "- 240101#A1 pad [[q]]", ["EDIT /N.d/org/q.zo"]),
+                               ("a page link with anchor, notes directory `/N.d/org`", "- 240101#A1 pad ([[r#anch]])", ["EDIT /N.d/org/r.zo", "SEARCH LID::anch"])):
+        r = go(label, "p.zo", ["# Page", "", line, ""], 3, None, zdir="/N.d/org")
+        if r is not None:
+            v, outs = r
+            run.check("C17.R2", f"{label}: {wouts}", v == 0 and outs == wouts, "run_action_open", f"{label}: {outs} status {v!r}",
+                      f"{label} (`{line}`): the answer is {outs} with status {v!r}, expected {wouts}: the page name is resolved against the notes directory in a way that depends on how that directory is spelled",
+                      file=FILE, node=fo.node)
+    run.floor("action-open scenarios", n, 36)
+
+
+def id_lookup_statement(run: Run, model: PyModel) -> None:
+    """R6: the index lookup behind [#id] / [@rid] / [!id] targets.  SQLRepo.get_notes_by_id is evaluated symbolically (SQLAlchemy constructs are uninterpreted terms) up to the
+    statement handed to session.exec: it selects notes and constrains, conjunctively, note = link.note, link.property = property, property.name = the key asked for, link.value = the id
+    asked for.  Without the link-property tie every note carrying the VALUE under any property answers; without the name the ID / RID kinds are mixed up."""
+    from ..absint import State
+    from ..absval import HObj, Opaque, Term
+    from ..sqlterms import make_interp
+
+    q = "zorg.storage.sql._repo.SQLRepo.get_notes_by_id"
+    if not model.has_func(q):
+        run.undecided("C17.R6", "SQLRepo", "get_notes_by_id vanished")
+        return
+    fi = model.func(q)
+    I = make_interp(model)
+    cap: list = []
+
+    def sess(I2, recv, name, args, kwargs, st, node):
+        if name in ("exec", "execute", "scalars") and args:
+            cap.append(args[0])
+            return [(Opaque("vresults"), st)]
+        return None
+
+    I.probes["method:vsqlsession"] = sess
+    st = State()
+    self_ = st.alloc(HObj("obj", cls="zorg.storage.sql._repo.SQLRepo", fields=dict(_session=Opaque("vsqlsession"), _note_converter=Opaque("conv"))))
+    try:
+        I.run_function(q, [self_, "IDVAL"], {"id_key": "KEY"}, st=st)
+    except Exception as e:  # noqa: BLE001
+        run.undecided("C17.R6", "get_notes_by_id", f"cannot interpret: {type(e).__name__}: {str(e)[:100]}")
+        return
+    run.floor("statements executed by get_notes_by_id", len(cap), 1)
+    for stmt in cap[:1]:
+        eqs: set = set()
+        joins_without_on = 0
+
+        def walk(t, under_or=False):
+            nonlocal joins_without_on
+            if not isinstance(t, Term):
+                if isinstance(t, tuple):
+                    for x in t:
+                        walk(x, under_or)
+                return
+            if t.head in ("==", "eq") and len(t.args) == 2 and not under_or:
+                eqs.add(frozenset(repr(a) for a in t.args))
+            if t.head in (".join", ".join_from", ".outerjoin") and len([a for a in t.args if not (isinstance(a, tuple) and a and a[0] == "kw")]) < 3:
+                joins_without_on += 1
+            for a in t.args:
+                walk(a, under_or or t.head in ("or_", ".or_", "not_"))
+
+        walk(stmt)
+        if joins_without_on:
+            run.undecided("C17.R6", "get_notes_by_id", "a join without an explicit ON clause (relationship join): not modelled")
+            continue
+        need = {"note = link.note": frozenset({"col('Note', 'id')", "col('PropertyLink', 'note_id')"}), "link.property = property": frozenset({"col('PropertyLink', 'prop_id')", "col('Property', 'id')"}),
+                "property.name = the key asked for": frozenset({"col('Property', 'name')", "'KEY'"}), "link.value = the id asked for": frozenset({"col('PropertyLink', 'value')", "'IDVAL'"})}
+        missing = [k for k, v in need.items() if v not in eqs]
+        run.check("C17.R6", "the ID / RID lookup ties note, property link, property name and value together", not missing, "get_notes_by_id", f"missing constraints: {missing}",
+                  f"the statement built by get_notes_by_id lacks {missing} (it constrains {sorted(sorted(e) for e in eqs)}): a [#id] / [@rid] / [!id] target resolves to notes that merely carry the same value "
+                  "under another property (or the same key with another value), so the wrong page is opened or the lookup is refused as ambiguous", file=fi.file, node=fi.node)
 
 
 def check(run: Run) -> None:
@@ -243,6 +314,8 @@ def check(run: Run) -> None:
 
     # ---- R2 / R3 / R4: scenarios through run_action_open
     open_scenarios(run, model)
+    run.rule("C17.R6", "the index lookup behind ID / RID / named-URL targets constrains note-link-property-name-value conjunctively (symbolic evaluation of SQLRepo.get_notes_by_id)")
+    id_lookup_statement(run, model)
     # stripped punctuation keeps kind prefixes and brackets intact (the word scan with its helpers folded in)
     from ..flatten import flat_info
 
